@@ -2,6 +2,7 @@
 //! tree) on generated operations and prints one line per operation:  `<op line> => <canonical output>`.
 //! The Lean driver is fed the `<op line>` part and must print the same `<canonical output>`.
 mod consts;
+mod fam_admin;
 mod fam_auth;
 mod fam_bank;
 mod fam_curve;
@@ -14,6 +15,8 @@ mod mon;
 mod mon_c02;
 mod mon_c03;
 mod mon_c08;
+mod mon_c12;
+mod mon_c13;
 mod mon_c14;
 mod mon_c15;
 mod mon_c17;
@@ -62,6 +65,7 @@ fn main() {
                 "tokenfee" => fam_tokenfee::gen(&mut rng, n, &mut out),
                 "bankstate" => fam_gate::gen(&mut rng, n, &mut out),
                 "signer" => fam_auth::gen(&mut rng, n, &mut out),
+                "admin" => fam_admin::gen(&mut rng, n, &mut out),
                 "panic" => fam_panic::gen(&mut rng, n, &mut out),
                 _ => {
                     eprintln!("unknown family {}", fam);
@@ -93,6 +97,8 @@ fn main() {
                 "C02" => mon_c02::run(&mut rng, n, &mut rep),
                 "C03" => mon_c03::run(&mut rng, n, &mut rep),
                 "C08" => mon_c08::run(&mut rng, n, &mut rep),
+                "C12" => mon_c12::run(&mut rng, n, &mut rep),
+                "C13" => mon_c13::run(&mut rng, n, &mut rep),
                 "C14" => mon_c14::run(&mut rng, n, &mut rep),
                 "C15" => mon_c15::run(&mut rng, n, &mut rep),
                 "C17" => mon_c17::run(&mut rng, n, &mut rep),
